@@ -83,7 +83,8 @@ def check_shape(shape, st: Stats, plan):
 
     # ---- A / B: speed-limited links ------------------------------------------------------
     for i, l in enumerate(base.links):
-        for N in (1, 2, 3):
+        # (a 12-segment link - signs on two-digit segment indices - on the one-link shapes)
+        for N in ((1, 2, 3, 12) if len(base.links) == 1 else (1, 2, 3)):
             plain = replace(base, links=tuple(replace(x, N=N) if j == i else x for j, x in enumerate(base.links)))
             try:
                 rp = Runner(plain, P, st)
@@ -92,7 +93,7 @@ def check_shape(shape, st: Stats, plan):
             except Exception as e:  # noqa: BLE001
                 report(f"C18/exception/{exc_site(e)}/{type(e).__name__}", exc_text(e), {"spec": plain.describe(), "P": P})
                 continue
-            for vs in vsl_options(N):
+            for vs in (vsl_options(N) if N <= 3 else [(1, 8, 11), (0, 9)]):
                 sv = replace(base, links=tuple(replace(x, N=N, vsl=vs) if j == i else x for j, x in enumerate(base.links)))
                 case = {"spec": sv.describe(), "P": P, "pair": "A", "link": i}
                 st.inc("pairs")
